@@ -207,6 +207,21 @@ pub fn corpus(thorough: bool) -> Vec<Vec<u8>> {
             }
         }
     }
+    // bit-strings whose unused low bits are set (nothing a sender writes, but the two decoders must still agree on what they
+    // make of them), and maps keyed by funs that differ in their creator pid only
+    for bits in 1..=8u8 { for last in [0xffu8, 0x01, 0x80] { out.push(vec![131, 77, 0, 0, 0, 2, bits, 0xAA, last]); out.push(vec![131, 104, 1, 77, 0, 0, 0, 1, bits, last]); } }
+    {
+        let fun = |id: u8, serial: u8, cr: u8, node: u8| -> Vec<u8> {
+            let mut inner = vec![1u8]; inner.extend_from_slice(&[7u8; 16]); inner.extend_from_slice(&3u32.to_be_bytes()); inner.extend_from_slice(&0u32.to_be_bytes());
+            inner.extend_from_slice(&[119, 1, b'm', 97, 4, 97, 5]);
+            inner.extend_from_slice(&[88, 119, 3, node, b'@', b'h', 0, 0, 0, id, 0, 0, 0, serial, 0, 0, 0, cr]);
+            let mut f = vec![112u8]; f.extend_from_slice(&((inner.len() + 4) as u32).to_be_bytes()); f.extend_from_slice(&inner); f
+        };
+        let variants = [fun(1, 2, 3, b'n'), fun(9, 2, 3, b'n'), fun(1, 9, 3, b'n'), fun(1, 2, 9, b'n'), fun(1, 2, 3, b'z')];
+        for a in &variants { for b in &variants {
+            let mut m = vec![131u8, 116, 0, 0, 0, 2]; m.extend_from_slice(a); m.extend_from_slice(&[97, 1]); m.extend_from_slice(b); m.extend_from_slice(&[97, 2]); out.push(m);
+        } }
+    }
     // containers with a little more than a million one-byte elements (both decoders draw their size limits at the same place)
     for n in [1_000_001u32, 1_048_577] {
         let mut t = vec![131u8, 105]; t.extend_from_slice(&n.to_be_bytes()); t.extend(std::iter::repeat(106u8).take(n as usize)); out.push(t);
